@@ -37,7 +37,7 @@ def r1_gate_chain(ctx):
     al = _aliases(b)
     A = lambda e: abbrev(sig(e), al)
     r.check(al.get(q.var_sig(b, "coin_id") or "") == "COINID" and "get($3.inputs, 0)" in (q.var_sig(b, "coin_id") or ""), "coin-id", "the spent coin is inputs[0]", "coin_id = %s" % q.var_sig(b, "coin_id"))
-    r.check((q.var_sig(b, "coin_data") or "").startswith("try(Option::ok_or(HashMap::get($2, "), "coin-lookup", "coin data comes from relevant_coins[inputs[0]] with ?", "coin_data = %s" % q.var_sig(b, "coin_data"))
+    r.check((q.var_sig(b, "coin_data") or "").startswith("try(HashMap::get($2, "), "coin-lookup", "coin data comes from relevant_coins[inputs[0]] with ?", "coin_data = %s" % q.var_sig(b, "coin_data"))
 
     def gate(key, sites, forced, okmsg, badmsg):
         if not sites:
@@ -52,9 +52,11 @@ def r1_gate_chain(ctx):
     # (a) coin lookup
     gate("coin-missing", [(bi, e) for bi, e in calls if q.is_call(e, "HashMap::get") and A(e) == "HashMap::get($2, COINID)"], V(0), "unknown coin ⇒ no Ok", "with the coin unknown Ok is reachable")
     # (b) age rule
-    age = [(e, c, bi) for e, c, bi in q.cmp_atoms(b) if "BlockHeight as std::ops::Sub" in c]
-    net = [(e, c, bi) for e, c, bi in q.cmp_atoms(b) if c in ("Eq($1.network, NetID::Mainnet{})", "Eq(NetID::Mainnet{}, $1.network)")]
     want_age = "Lt(<melstructs::BlockHeight as std::ops::Sub>::sub($1.height, COIN.height).0, 100)"
+    NETS = ("Eq($1.network, NetID::Mainnet{})", "Eq(NetID::Mainnet{}, $1.network)")
+    # either polarity of the source test: `age < 100 && net == Mainnet` and `!(age >= 100 || net != Mainnet)` are the same two atoms
+    age = [(e, c, bi) for e, c, bi in q.pick_atoms(b, lambda c: abbrev(c, al) == want_age) if "BlockHeight as std::ops::Sub" in c]
+    net = [(e, c, bi) for e, c, bi in q.pick_atoms(b, lambda c: c in NETS) if c in NETS]
     r.check([abbrev(c, al) for e, c, bi in age] == [want_age], "age/atom", "age test: height − coin.height < 100", "age atoms: %s" % [abbrev(c, al) for e, c, bi in age])
     r.check(len(net) == 1, "age/mainnet", "restricted to mainnet", "network atoms: %d" % len(net))
     if age and net:
@@ -66,7 +68,7 @@ def r1_gate_chain(ctx):
     # (d) decode
     dec = [(bi, e) for bi, e in calls if q.is_call(e, "stdcode::deserialize") and sig(e) == "stdcode::deserialize($3.data)"]
     gate("decode-fails", dec, V(1), "undecodable data ⇒ no Ok", "with undecodable data Ok is reachable")
-    DEC = "try(Result::map_err(stdcode::deserialize($3.data), closure[]))"
+    DEC = "try(stdcode::deserialize($3.data))"
     al[DEC] = "DATA"
     # (e) proof bytes
     pf = [(bi, e) for bi, e in calls if q.is_call(e, "Proof::from_bytes")]
@@ -76,10 +78,10 @@ def r1_gate_chain(ctx):
     # (f) MelPoW
     pw = [(bi, e) for bi, e in calls if q.is_call(e, "proof_is_tip910")]
     gate("melpow", pw, V(1), "failed MelPoW ⇒ no Ok", "with MelPoW failing Ok is reachable")
-    PUZ = "tmelcrypt::hash_keyed(Header::hash(try(Option::ok_or(SmtMapping::get($1.history, COIN.height), StateError::InvalidMelPoW{}))), Result::unwrap(stdcode::serialize(Option::unwrap(core::slice::<impl [T]>::get($3.inputs, 0)))))"
+    PUZ = "tmelcrypt::hash_keyed(Header::hash(try(SmtMapping::get($1.history, COIN.height))), Result::unwrap(stdcode::serialize(Option::unwrap(core::slice::<impl [T]>::get($3.inputs, 0)))))"
     for bi, e in pw:
         got = [A(a) for a in e[2]]
-        want = ["(Proof::from_bytes(DATA.1) as Some).0", PUZ, "DATA.0"]
+        want = ["try(Proof::from_bytes(DATA.1))", PUZ, "DATA.0"]
         r.check(got == want, "melpow/args", "proof_is_tip910(proof, hash_keyed(hash(history[coin.height]), stdcode(inputs[0])), difficulty)", "proof_is_tip910(%s)" % ", ".join(got), b.where(bi))
     # (g) reward bound
     ck = [(bi, e) for bi, e in calls if q.is_call(e, "check_dosc_total_output")]
@@ -112,7 +114,7 @@ def r2_reward_bound(ctx):
     r = ctx.rule("R2", "check_dosc_total_output: ERG output > reward_nom ⇒ Err; reward_nom = CoinValue(dosc_to_erg(height, calculate_reward(speed, history[height−1].dosc_speed, difficulty, tip910)))")
     c = ctx.body("melstf::state::applytx::check_dosc_total_output", r)
     atoms = q.cmp_atoms(c)
-    want = "Lt($2, Option::unwrap_or_default(HashMap::get(Transaction::total_outputs($1), Denom::Erg{})))"
+    want = "Lt($2, Option::unwrap_or(HashMap::get(Transaction::total_outputs($1), Denom::Erg{}), 0))"
     r.check([a[1] for a in atoms] == [want], "atom", "compares total ERG output with the nominal reward", "comparisons: %s" % [a[1] for a in atoms])
     oks = [bb for bb, e in q.result_blocks(c)["Ok"]]
     if atoms:
@@ -129,7 +131,7 @@ def r2_reward_bound(ctx):
         r.check(any(o in f.reach for o in oks), "exact=>ok", "output == reward is accepted", "output == reward is rejected")
     b = ctx.body(FN, r)
     al = _aliases(b)
-    al["try(Result::map_err(stdcode::deserialize($3.data), closure[]))"] = "DATA"
+    al["try(stdcode::deserialize($3.data))"] = "DATA"
     A = lambda e: abbrev(sig(e), al)
     for bi, e in q.call_exprs(b, "check_dosc_total_output"):
         r.check(sig(e[2][0]) == "$3", "call/tx", "on the transaction", "on %s" % sig(e[2][0]), b.where(bi))
@@ -143,7 +145,7 @@ def r2_reward_bound(ctx):
             SPEED = [A(x) for _, x in q.call_exprs(b, "compute_doscmint_speed")]
             TIP = "try(applytx::proof_is_tip910("
             r.check(q.is_call(cr[2][0], "compute_doscmint_speed"), "reward/speed", "speed = compute_doscmint_speed(..)", "speed argument = %s" % got[0][:100], b.where(bi))
-            want_prev = "try(Option::ok_or(SmtMapping::get($1.history, SubWithOverflow($1.height.0, 1).0), StateError::InvalidMelPoW{})).dosc_speed"
+            want_prev = "try(SmtMapping::get($1.history, SubWithOverflow($1.height.0, 1).0)).dosc_speed"
             r.check(got[1] == want_prev, "reward/prev-speed", "previous speed = history[height−1].dosc_speed", "previous speed = %s" % got[1], b.where(bi))
             r.check(got[2] == "DATA.0", "reward/difficulty", "difficulty = decoded", "difficulty = %s" % got[2], b.where(bi))
             r.check(got[3].startswith(TIP), "reward/tip910", "flag = proof_is_tip910(..)?", "flag = %s" % got[3][:80], b.where(bi))
